@@ -22,7 +22,7 @@ PROPS = {
    'nontrivial': lambda r: r.get('allocs', 0) >= 20 and r.get('frees', 0) >= 5, 'distinct_by': 'api+sched',
  },
  'C02': {
-   'families': [('c02_pingpong', 5, ALL), ('c02_ownercollect', 3, ALL), ('c02_manypushers', 3, ALL), ('c02_hugeremote', 1, ALL)],
+   'families': [('c02_pingpong', 5, ALL), ('c02_ownercollect', 3, ALL), ('c02_manypushers', 3, ALL), ('c02_hugeremote', 2, ALL)],
    'runs': {'quick': 3000, 'thorough': 150000},
    'rule': 'non-trivial = at least one context switch inside mi_free_block_delayed_mt (between its CASes), _mi_page_thread_free_collect or _mi_heap_delayed_free_partial; distinct = distinct (API result hash, hash of the (thread, site) sequence at context switches inside hot functions)',
    'nontrivial': lambda r: sw(r, 'switch_in_free_mt', 'switch_in_tf_collect', 'switch_in_delayed_partial') > 0,
@@ -43,8 +43,8 @@ PROPS = {
    'must_reach': ['segment_abandoned', 'segment_reclaimed', 'switch_in_reclaim', 'os_abandoned_list_used', 'census', 'thread_id_reused'],
  },
  'C10': {
-   'families': [('c10_single', 4, ALL), ('c10_concurrent', 4, ALL), ('c09_userheap_adopter', 1, ALL)],
-   'runs': {'quick': 2500, 'thorough': 120000},
+   'families': [('c10_single', 3, ALL), ('c10_concurrent', 6, ALL), ('c09_userheap_adopter', 1, ALL)],
+   'runs': {'quick': 3500, 'thorough': 150000},
    'rule': 'non-trivial = at least one heap delete/destroy executed and (concurrent family) a context switch inside the delayed-free functions; distinct = distinct (API hash, hot-switch signature)',
    'nontrivial': lambda r: sw(r, 'heap_absorb', 'heap_destroy') > 0,
    'must_reach': ['heap_absorb', 'heap_destroy', 'use_delayed_spin'],
@@ -70,7 +70,7 @@ PROPS = {
    'nontrivial': lambda r: r.get('allocs', 0) >= 5 and r.get('reallocs', 0) >= 1,
  },
  'C04': {
-   'families': [('c04_dirty', 3, ALL), ('c04_grow', 2, ALL)],
+   'families': [('c04_dirty', 3, ALL), ('c04_grow', 2, ALL), ('c04_hugeslack', 0.4, ALL)],
    'runs': {'quick': 2400, 'thorough': 120000},
    'rule': 'non-trivial = at least one zero obligation was checked (zeroing allocation over previously dirtied memory, or a growth step of a zero-initialised block); distinct = distinct API result hash',
    'nontrivial': lambda r: sw(r, 'zero_checked') > 0,
